@@ -87,7 +87,7 @@ fn gen_program(t: &mut Tape, modified: bool) -> ProgOut {
 }
 
 /// a transpiler-like original map: every JS line L maps (all its segments) to line 2L+5 of one source
-fn original_map(t: &mut Tape, lines: usize, source: &str) -> (Value, serde_json::Map<String, Value>) {
+fn original_map(t: &mut Tape, lines: usize, source: &str, root: Option<&str>) -> (Value, serde_json::Map<String, Value>) {
     let mut segs = vec![];
     let mut line_of = serde_json::Map::new();
     let stretch = 1 + t.below(3) as u32;
@@ -107,7 +107,7 @@ fn original_map(t: &mut Tape, lines: usize, source: &str) -> (Value, serde_json:
         source_of.insert((l + 1).to_string(), json!(if si == 1 { second.clone() } else { source.to_string() }));
     }
     let sources = if two { vec![source.to_string(), second] } else { vec![source.to_string()] };
-    let m = Map { version: 3, sources, names: vec![], source_root: None, segs, has_sections: false };
+    let m = Map { version: 3, sources, names: vec![], source_root: root.map(|s| s.to_string()), segs, has_sections: false };
     line_of.insert("$sourceOf".into(), Value::Object(source_of));
     (smap::encode_map(&m, &json!({"file": "x.js"})), line_of)
 }
@@ -146,11 +146,23 @@ impl Check for C11 {
                     if kind == 2 {
                         cfg["chainSourceMap"] = json!(true);
                         let source = *t.pick(&["../src/a.ts", "a.ts", "sub/dir/c.ts"]);
-                        let (m, line_of) = original_map(&mut t, p.lines, source);
+                        // sometimes the sources are relative to a sourceRoot
+                        let root = *t.pick(&[None, None, Some("../root"), Some("lib/")]);
+                        let (m, line_of) = original_map(&mut t, p.lines, source, root);
                         code.push_str(&format!("//# sourceMappingURL=data:application/json;base64,{}\n", smap::encode_base64(m.to_string().as_bytes())));
                         let mut line_of = line_of;
                         let source_of = line_of.remove("$sourceOf").unwrap_or(Value::Null);
-                        orig = json!({"source": source, "lineOf": line_of, "sourceOf": source_of});
+                        // expected paths: the source resolved against the sourceRoot
+                        let with_root = |s: &str| match root {
+                            Some(r) if r.ends_with('/') => format!("{r}{s}"),
+                            Some(r) => format!("{r}/{s}"),
+                            None => s.to_string(),
+                        };
+                        let source_of = match source_of {
+                            Value::Object(m) => Value::Object(m.into_iter().map(|(k, v)| (k, json!(with_root(v.as_str().unwrap_or(""))))).collect()),
+                            x => x,
+                        };
+                        orig = json!({"source": with_root(source), "lineOf": line_of, "sourceOf": source_of});
                     }
                     if kind == 3 {
                         code = "function broken( {\n".into();
